@@ -9,6 +9,8 @@ package c03
 import (
 	"encoding/json"
 	"fmt"
+	"hash/fnv"
+	"strings"
 	"testing"
 	"time"
 
@@ -36,8 +38,12 @@ type Case struct {
 	// script starts (and handed back before the final read-out): the deliveries then carry
 	// identifiers from IDBase+1 on — the edges of narrower encodings (127/128, 255/256,
 	// 32767/32768), the UTF-16 surrogate band (55296..57343) and the top of the range
-	IDBase int    `json:"id_base,omitempty"`
-	Steps  []Step `json:"steps"`
+	IDBase int `json:"id_base,omitempty"`
+	// RL: when not 0, every message is padded so that the PUBLISH packet written to a QoS 1/2
+	// subscriber has exactly this "remaining length" (topic t/x: 2+3+2+payload) — the edges of
+	// the 1/2/3-byte length encodings
+	RL    int    `json:"rl,omitempty"`
+	Steps []Step `json:"steps"`
 }
 
 type failure struct {
@@ -50,6 +56,17 @@ type flight struct {
 	payload string
 	qos     byte
 	phase   string // puback | pubrec | pubcomp  (what the broker waits for)
+}
+
+// short abbreviates a long payload for messages and map keys; the digest keeps two different
+// long payloads apart.
+func short(s string) string {
+	if len(s) <= 48 {
+		return s
+	}
+	h := fnv.New32a()
+	h.Write([]byte(s))
+	return fmt.Sprintf("%s…(%d bytes, fnv %08x)", s[:16], len(s), h.Sum32())
 }
 
 var ackTypes = map[string]byte{"puback": sim.PUBACK, "pubrec": sim.PUBREC, "pubrel": sim.PUBREL, "pubcomp": sim.PUBCOMP}
@@ -152,6 +169,9 @@ func run(c Case) (f *failure, nontrivial bool) {
 		case "send":
 			sends++
 			payload := fmt.Sprintf("m%d", sends)
+			if c.RL > 7+len(payload) {
+				payload += strings.Repeat("-", c.RL-7-len(payload))
+			}
 			used := allIDs()
 			pub.Send(sim.EncPublish("t/x", []byte(payload), 1, false, false, uint16(30000+sends)))
 			if f := settle(); f != nil {
@@ -177,12 +197,12 @@ func run(c Case) (f *failure, nontrivial bool) {
 				}
 				if c.SubQoS[i] == 0 {
 					if len(got) != 1 || got[0].Type != sim.PUBLISH || got[0].Payload != payload || got[0].Topic != "t/x" || got[0].QoS != 0 {
-						return &failure{fmt.Sprintf("step %d (send %s): sub%d received %v, want exactly one PUBLISH t/x=%s at QoS 0", si, payload, i, got, payload), false}, nontrivial
+						return &failure{fmt.Sprintf("step %d (send %s): sub%d received %v, want exactly one PUBLISH t/x=%s at QoS 0", si, short(payload), i, got, short(payload)), false}, nontrivial
 					}
 					continue
 				}
 				if len(got) != 1 || got[0].Type != sim.PUBLISH || got[0].Payload != payload || got[0].Topic != "t/x" || int(got[0].QoS) != c.SubQoS[i] {
-					return &failure{fmt.Sprintf("step %d (send %s): sub%d received %v, want exactly one PUBLISH t/x=%s at QoS %d", si, payload, i, got, payload, c.SubQoS[i]), false}, nontrivial
+					return &failure{fmt.Sprintf("step %d (send %s): sub%d received %v, want exactly one PUBLISH t/x=%s at QoS %d", si, short(payload), i, got, short(payload), c.SubQoS[i]), false}, nontrivial
 				}
 				if got[0].ID == 0 || used[got[0].ID] {
 					return &failure{fmt.Sprintf("step %d: delivery to sub%d uses packet identifier %d which is 0 or still in flight", si, i, got[0].ID), false}, nontrivial
@@ -276,7 +296,7 @@ func run(c Case) (f *failure, nontrivial bool) {
 					if fl.phase == "pubcomp" {
 						want[fmt.Sprintf("PUBREL id%d", fl.id)]++
 					} else {
-						want[fmt.Sprintf("PUBLISH id%d q%d t/x=%s", fl.id, fl.qos, fl.payload)]++
+						want[fmt.Sprintf("PUBLISH id%d q%d t/x=%s", fl.id, fl.qos, short(fl.payload))]++
 					}
 				}
 				have := map[string]int{}
@@ -284,7 +304,7 @@ func run(c Case) (f *failure, nontrivial bool) {
 					if p.Type == sim.PUBREL {
 						have[fmt.Sprintf("PUBREL id%d", p.ID)]++
 					} else {
-						have[fmt.Sprintf("%s id%d q%d %s=%s", sim.TypeName(p.Type), p.ID, p.QoS, p.Topic, p.Payload)]++
+						have[fmt.Sprintf("%s id%d q%d %s=%s", sim.TypeName(p.Type), p.ID, p.QoS, p.Topic, short(p.Payload))]++
 					}
 				}
 				if fmt.Sprint(want) != fmt.Sprint(have) {
@@ -331,11 +351,11 @@ func run(c Case) (f *failure, nontrivial bool) {
 					if fl.phase == "pubcomp" {
 						allowed[fmt.Sprintf("PUBREL id%d", fl.id)]++
 					} else {
-						allowed[fmt.Sprintf("PUBLISH id%d q%d t/x=%s", fl.id, fl.qos, fl.payload)]++
+						allowed[fmt.Sprintf("PUBLISH id%d q%d t/x=%s", fl.id, fl.qos, short(fl.payload))]++
 					}
 				}
 				for _, p := range got {
-					k := fmt.Sprintf("%s id%d q%d %s=%s", sim.TypeName(p.Type), p.ID, p.QoS, p.Topic, p.Payload)
+					k := fmt.Sprintf("%s id%d q%d %s=%s", sim.TypeName(p.Type), p.ID, p.QoS, p.Topic, short(p.Payload))
 					if p.Type == sim.PUBREL {
 						k = fmt.Sprintf("PUBREL id%d", p.ID)
 					}
@@ -536,6 +556,7 @@ func TestRandom(t *testing.T) {
 			c.SubQoS = append(c.SubQoS, rapid.SampledFrom([]int{1, 2, 1, 2, 1, 2, 1, 2, 0, 3}).Draw(t, "subqos"))
 		}
 		c.IDBase = rapid.SampledFrom([]int{0, 0, 0, 0, 125, 253, 32765, 55293, 57340, 65300}).Draw(t, "idBase")
+		c.RL = rapid.SampledFrom([]int{0, 0, 0, 0, 0, 127, 128, 129, 16383, 16384, 16384, 16385}).Draw(t, "remainingLength")
 		n := rapid.IntRange(3, 24).Draw(t, "steps")
 		c.Steps = append(c.Steps, Step{Op: "send"})
 		for i := 0; i < n; i++ {
@@ -619,4 +640,126 @@ func TestTickerWiring(t *testing.T) {
 		time.Sleep(50 * time.Millisecond)
 	}
 	ev.Fail(t, "ticker-wiring", c, "no retransmission within 30 s although the acknowledgement deadline is 3 s and the sweep runs every second (ticker sweeps seen: %d)", n.Acks.TickerSweeps())
+}
+
+// TestTickerUnderBacklog: retransmission to a healthy session does not depend on the state of
+// the delivery loop. A second subscriber stays connected but stops reading while QoS 0 traffic
+// for it keeps coming: the writer's single delivery goroutine blocks in the write to it and
+// further jobs queue up behind. The broker's own 1 s ticker (forwarded, real time) must still
+// make the deadlines of the healthy session's open exchanges pass: the PUBLISH (QoS 1 and 2)
+// or the PUBREL (QoS 2 after PUBREC) is sent again while the stall lasts, with the same packet
+// identifier. The stalled session has nothing in flight itself (QoS 0), so the sweep has no
+// reason to touch its connection.
+type backlogCase struct {
+	Scenario string `json:"scenario"`
+	QoS      byte   `json:"qos"`
+	Phase    string `json:"phase"`  // which packet is left unanswered: publish | pubrel
+	Queued   int    `json:"queued"` // QoS 0 messages for the stalled subscriber
+}
+
+func init() {
+	kinds["ticker-backlog"] = func(t ev.TB, raw json.RawMessage) {
+		var v backlogCase
+		ev.Decode(t, raw, &v)
+		runBacklog(t, v)
+	}
+}
+
+func TestTickerUnderBacklog(t *testing.T) {
+	for _, v := range []backlogCase{
+		{"backlog", 1, "publish", 3}, {"backlog", 2, "publish", 2}, {"backlog", 2, "pubrel", 4},
+	} {
+		v := v
+		t.Run(fmt.Sprintf("q%d-%s", v.QoS, v.Phase), func(t *testing.T) {
+			t.Parallel()
+			runBacklog(t, v)
+		})
+	}
+}
+
+func runBacklog(t ev.TB, v backlogCase) {
+	{
+		{
+			cl, err := sim.NewCluster()
+			if err != nil {
+				t.Fatalf("VERIF-INCONCLUSIVE %v", err)
+			}
+			defer cl.Close()
+			n, err := cl.AddNode(sim.NodeOpts{})
+			if err != nil {
+				t.Fatalf("VERIF-INCONCLUSIVE %v", err)
+			}
+			n.Acks.ForwardTicker(true)
+			healthy, slow, pub := cl.NewClient("healthy"), cl.NewClient("slow"), cl.NewClient("pub")
+			healthy.AutoAck = false
+			for _, k := range []*sim.Client{healthy, slow, pub} {
+				k.AttachTo(n)
+				k.Send(sim.EncConnect(sim.ConnectOpts{ClientID: k.Name, KeepAlive: 6000}))
+			}
+			healthy.Send(sim.EncSubscribe(1, []string{"t"}, []byte{v.QoS}))
+			slow.Send(sim.EncSubscribe(1, []string{"slow/#"}, []byte{0}))
+			if err := cl.Settle(); err != nil {
+				t.Fatalf("VERIF-INCONCLUSIVE %v", err)
+			}
+			pub.Send(sim.EncPublish("t", []byte("x"), 1, false, false, 20001))
+			if err := cl.Settle(); err != nil {
+				t.Fatalf("VERIF-INCONCLUSIVE %v", err)
+			}
+			ev.Case(true, v, "ticker-backlog")
+			first := healthy.Publishes()
+			if len(first) != 1 || first[0].QoS != v.QoS {
+				ev.Fail(t, "ticker-backlog", v, "expected one delivery at QoS %d, got %v", v.QoS, first)
+				return
+			}
+			id := first[0].ID
+			watch := byte(sim.PUBLISH)
+			if v.Phase == "pubrel" {
+				healthy.Send(sim.EncAck(sim.PUBREC, id))
+				if err := cl.Settle(); err != nil {
+					t.Fatalf("VERIF-INCONCLUSIVE %v", err)
+				}
+				watch = sim.PUBREL
+				if healthy.Count(sim.PUBREL) != 1 {
+					ev.Fail(t, "ticker-backlog", v, "PUBREC answered by %d PUBREL, want 1", healthy.Count(sim.PUBREL))
+					return
+				}
+			}
+			base := healthy.Count(watch)
+			// the other subscriber stops reading; traffic for it goes on
+			slow.Conn.StallWrites(true)
+			for i := 0; i < v.Queued; i++ {
+				pub.Send(sim.EncPublish("slow/x", []byte(fmt.Sprintf("s%d", i)), 0, false, false, 0))
+			}
+			for until := time.Now().Add(10 * time.Second); time.Now().Before(until) && !slow.Conn.WriteBlocked(); {
+				time.Sleep(time.Millisecond)
+			}
+			if !slow.Conn.WriteBlocked() {
+				t.Fatalf("VERIF-INCONCLUSIVE the write to the stalled subscriber never started")
+			}
+			seen := 0
+			for until := time.Now().Add(25 * time.Second); time.Now().Before(until) && seen < 2; {
+				healthy.Pump()
+				seen = healthy.Count(watch) - base
+				time.Sleep(50 * time.Millisecond)
+			}
+			sweeps := n.Acks.TickerSweeps()
+			slow.Conn.StallWrites(false)
+			if seen < 2 {
+				ev.Fail(t, "ticker-backlog", v, "an open QoS %d exchange of a healthy session (waiting for the answer to its %s) was sent again %d times in 25 s while another session's connection was stalled; the acknowledgement deadline is 3 s and the sweep runs every second (ticker sweeps seen: %d)", v.QoS, v.Phase, seen, sweeps)
+				return
+			}
+			for _, p := range healthy.Rx {
+				if (p.Type == sim.PUBLISH || p.Type == sim.PUBREL) && p.ID != id {
+					ev.Fail(t, "ticker-backlog", v, "retransmission with another packet identifier: %v (first delivery had %d)", p, id)
+					return
+				}
+			}
+			if err := cl.Settle(); err != nil {
+				t.Fatalf("VERIF-INCONCLUSIVE %v", err)
+			}
+			if got := len(slow.Publishes()); got != v.Queued {
+				ev.Fail(t, "ticker-backlog", v, "the stalled subscriber received %d of %d messages once it read again", got, v.Queued)
+			}
+		}
+	}
 }
